@@ -59,7 +59,9 @@ def proxy_url(p):
 class C19(Prop):
     id = "C19"
     level = "fault_enumeration"
-    rule = ("optionally after an earlier attempt through the proxy (same or another WebSocket object; its reply complete or cut "
+    rule = ("optionally with another application thread calling a send method while the connecting thread is blocked in "
+            "getaddrinfo / connect / recv of the proxy's answer / the TLS handshake (it must be refused and write nothing); "
+            "optionally after an earlier attempt through the proxy (same or another WebSocket object; its reply complete or cut "
             "short; ended by EOF or reset): proxies mapping (http only / https only / both / empty / None with HTTP_PROXY, HTTPS_PROXY set or unset), ws / wss "
             "target with default or explicit port, proxy URL shapes (http/https, with/without port, user, user:password), 20 proxy "
             "reply classes (200 variants, other 2xx/3xx/4xx/5xx, garbage, empty, unterminated, oversized) followed by EOF or silence, "
@@ -92,6 +94,11 @@ class C19(Prop):
             "fault": st.one_of(st.none(), st.none(), st.tuples(st.sampled_from(["resolve", "connect", "send", "recv"]),
                                                                st.integers(0, 3),
                                                                st.sampled_from(["reset", "timeout", "exc"])).map(list)),
+            # ANOTHER application thread calls a send method while the connecting thread is blocked in a system call
+            # (name resolution, TCP connect, reading the proxy's answer, TLS handshake): refused, nothing written
+            "during": gen.weighted([(3, st.none()), (1, st.fixed_dictionaries({
+                "op": st.sampled_from(["getaddrinfo", "connect", "recv", "recv", "wrap"]), "n": st.integers(0, 2),
+                "do": st.sampled_from([["send_text", "too early"], ["send_binary", "00ff"], ["ping", "70"], ["pong", ""]])}))]),
             # an EARLIER connection attempt through the proxy (same WebSocket object or another one): the proxy's
             # answer then, possibly cut short, and how that connection ended
             "earlier": gen.weighted([(3, st.none()), (1, st.fixed_dictionaries({
@@ -137,8 +144,23 @@ class C19(Prop):
                                                       "user": None, "password": None},
                                            "reply": name, "after": "eof", "seg": "whole", "fault": None,
                                            "earlier": {"reply": ename, "cut": cut, "end": end, "same": same}}
+        def sends_while_connecting():
+            for op in ("getaddrinfo", "connect", "recv", "wrap"):
+                for k in (0, 1):
+                    for do in (["send_text", "too early"], ["send_binary", "00ff"], ["ping", "70"]):
+                        for name in ("200_established", "407", "unterminated"):
+                            for secure in (False, True):
+                                for seg in ("whole", "bytewise"):
+                                    yield {"secure": secure, "host": "example.test", "port": None, "mapping": "both",
+                                           "proxy": {"scheme": "http", "host": "proxy.test", "port": 3128, "user": None,
+                                                     "password": None},
+                                           "proxy2": {"scheme": "http", "host": "squid.corp.example", "port": None,
+                                                      "user": None, "password": None},
+                                           "reply": name, "after": "eof", "seg": seg, "fault": None,
+                                           "during": {"op": op, "n": k, "do": do}}
         return [Enumeration("every_cut_of_the_proxy_reply", every_cut, exhaustive=True),
                 Enumeration("every_reply_class", every_reply, exhaustive=True),
+                Enumeration("sends_from_another_thread_while_connecting", sends_while_connecting, exhaustive=True),
                 Enumeration("after_an_earlier_attempt_through_the_proxy", after_earlier_attempt, exhaustive=True)]
 
     def run_case(self, case):
@@ -199,6 +221,10 @@ class C19(Prop):
             else:
                 att["faults"] = {kind: {str(n): how}}
         scn = {"url": url, "attempts": [att], "ws_opts": {"proxies": proxies}, "env": env, "horizon": 1000.0}
+        during = case.get("during")
+        if during:
+            scn["io_reactions"] = [{"at": [during["op"], during["n"]], "do": [during["do"]]}]
+            labels.add("send_from_another_thread_during:" + during["op"])
         earlier = case.get("earlier")
         if earlier:
             eb = REPLY_BY_NAME[earlier["reply"]][0]
